@@ -330,7 +330,11 @@ func VerifC17hClosedWhileWaitingForTheLock() {
 	for i := 0; i < 8; i++ {
 		vYield()
 	}
-	vAssert(!done, "harness: the report is waiting for the manager")
+	if done { // the report did not have to wait for the lock this harness holds: the window does not exist
+		o.mu.Unlock()
+		return
+	}
+	vCover("report-waiting-for-the-lock")
 	c.closed = true // the connection closes ...
 	o.mu.Unlock()
 	o.removeConn(c) // ... and its Disconnected notification is processed before the waiting report gets its turn
